@@ -213,6 +213,23 @@ func runStructCase(c sCaseT) sEventT {
 	} else {
 		ev.Obs.Build = "ok"
 		ev.Obs.Built = projSType(typ)
+		// the type is the caller's to tailor: a second one is built, emptied, and a third one is what
+		// the event reports (it has exactly the declared fields, whatever was done to its predecessors)
+		catch(func() {
+			if t2, err := jsonapi.BuildType(reflect.New(t).Interface()); err == nil {
+				for k := range t2.Attrs {
+					delete(t2.Attrs, k)
+				}
+				for k := range t2.Rels {
+					delete(t2.Rels, k)
+				}
+				t2.Name = "tailored"
+				if t3, err := jsonapi.BuildType(reflect.New(t).Interface()); err == nil {
+					ev.Obs.Built = projSType(t3)
+					typ = t3
+				}
+			}
+		})
 	}
 	// Wrap (pointer)
 	var w *jsonapi.Wrapper
